@@ -47,7 +47,8 @@ inductive Err | exists | notDir | isDir | noEnt | loop
 
 structure Facts where
   defaultMode : Nat                 -- `if mode == 0 { mode = 0664 }` in WriteFile
-  tempThenRename : Bool             -- WriteFile writes a temporary file and renames it over `to` (never writes into `to`)
+  tempThenRename : Bool             -- WriteFile stages a temporary file NEXT TO `to` and renames it over `to`: rename(2)
+                                    -- stays on one file system, `to` is replaced, never written into
   topLevelSymlinkAware : Bool       -- false today: a non-directory `from` goes straight to CopyOrLinkFile
   linkRecreatesSymlink : Bool       -- CopyOrLinkFile with link=true recreates a symlink instead of hard-linking it
   fallbackUsesSourceMode : Bool     -- the copy after a failed hard link takes the source's mode
@@ -104,7 +105,8 @@ def copyFile (F : Facts) (inos : List Inode) (i : Nat) (mode : Nat) (cur : Optio
           let truncated := inos.set j { dst with content := [] }             -- os.Create truncates ...
           match truncated[i]? with                                             -- ... and only then the source is read
           | none => .error .noEnt
-          | some srcNow => .ok (.file j, truncated.set j { dst with content := srcNow.content })
+          | some srcNow =>                                                     -- ... then chmod to the staged file's mode
+            .ok (.file j, truncated.set j { content := srcNow.content, perm := if mode = 0 then F.defaultMode else mode })
 
 /-- `CopyOrLinkFile(from, to, fromMode, toMode, link, fallback)` for a regular file with inode `i`. -/
 def copyOrLinkRegular (F : Facts) (p : Params) (inos : List Inode) (i : Nat) (cur : Option Node) :
